@@ -34,7 +34,7 @@ type kvAPI interface {
 	Values() []int
 	Range(func(k, v int) bool)
 	All(func(k, v int) bool)
-	GetWithMap(ks []int) []int
+	GetWithMap(ks []int, ballast int) []int
 	GetWithLock(int, func(int))
 	MapMove(k0, k1 int) (int, bool)
 	MapSetLen(k, v int) int
@@ -103,10 +103,14 @@ func (a *kvOf[K, V]) All(f func(k, v int) bool) {
 		}
 	}
 }
-func (a *kvOf[K, V]) GetWithMap(ks []int) []int {
+func (a *kvOf[K, V]) GetWithMap(ks []int, ballast int) []int {
 	m := map[K]V{}
 	for _, k := range ks {
 		m[a.ek(k)] = a.ev(-1)
+	}
+	// a big argument map: thousands of further keys the SafeKV does not hold
+	for i := 0; i < ballast; i++ {
+		m[a.ek(10000+i)] = a.ev(-1)
 	}
 	a.m.GetWithMap(m)
 	var out []int
@@ -353,7 +357,7 @@ func (x *inst) Do(t int, op sim.Op) sim.Rec {
 		})
 		r.OK = true
 	case "GetWithMap":
-		r.Vs = x.m.GetWithMap(op.Ks)
+		r.Vs = x.m.GetWithMap(op.Ks, op.D)
 		r.OK = true
 	case "GetWithLock":
 		x.m.GetWithLock(op.K, func(v int) {
@@ -509,6 +513,9 @@ func gen(r *sim.Rng, tier string) *sim.Case {
 					op.Ks[n-1] = r.N(nKeys)
 				}
 			case "GetWithMap":
+				if r.N(1000) < 5 && c.Params["elem"] <= 1 {
+					op.D = []int{4095, 4096, 4097, 5000, 9000}[r.N(5)] // a big argument map
+				}
 				seen := map[int]bool{}
 				for j := r.Range(1, 3) + r.Pick(9, 1)*r.N(nKeys); j > 0; j-- {
 					k := r.N(nKeys)
@@ -532,6 +539,40 @@ func gen(r *sim.Rng, tier string) *sim.Case {
 		c.Programs = append(c.Programs, prog)
 	}
 	c.Sched = enga.GenSched(r, nT, total, -1, false)
+	if r.Pct(2) {
+		// a slow snapshot: one thread makes a single snapshot call (sometimes with a very big
+		// argument map) and is descheduled at one or two of its own steps, each time for as long
+		// as several writes of a busy thread take
+		nKeys = 4
+		c.Params["nkeys"], c.Params["elem"], c.Params["twin"], c.Params["others"], c.Params["warm"] = 4, r.N(2), 0, 0, 0
+		c.Params["init_mask"] = r.N(16)
+		snap := sim.Op{Op: []string{"GetWithMap", "GetWithMap", "Keys", "Values", "Range", "All"}[r.N(6)], V: 1<<8 | 1}
+		if snap.Op == "GetWithMap" {
+			snap.Ks = []int{0, 1, 2, 3}[:r.Range(2, 4)]
+			if r.Pct(70) {
+				snap.D = []int{4096, 5000, 9000, 13000}[r.N(4)]
+			}
+		}
+		var busy []sim.Op
+		for i := 0; i < r.Range(3, 7); i++ {
+			op := sim.Op{Op: []string{"Set", "Set", "SetNx", "SetX", "Delete", "MapMove"}[r.N(6)], K: r.N(4), V: 2<<8 | (i + 1)}
+			switch op.Op {
+			case "Delete":
+				op.Ks = []int{r.N(4)}
+			case "MapMove":
+				a := r.N(4)
+				op.Ks = []int{a, (a + 1 + r.N(3)) % 4}
+			}
+			busy = append(busy, op)
+		}
+		c.Programs = [][]sim.Op{{snap}, busy}
+		c.Sched = enga.GenSched(r, 2, len(busy)+1, -1, false)
+		c.Sched.SpinBurn = 0
+		c.Sched.Stalls = []sim.Stall{{T: 0, AfterS: r.Range(3, 6), For: r.Range(6, 40)}}
+		if r.Bool() {
+			c.Sched.Stalls = append(c.Sched.Stalls, sim.Stall{T: 0, AfterS: r.Range(4, 9), For: r.Range(6, 40)})
+		}
+	}
 	c.EnvSeed = r.U64() >> 12
 	return c
 }
